@@ -506,7 +506,10 @@ def run(ctx):
         "user mode) and then for three full passes of every loop (runInLoop -> runNext markers); no sleeps",
         "while somebody is subscribed the kernel disposition is only recorded, not constrained (the statement does not say how "
         "tbox receives the signal); when nobody is subscribed handler, flags and mask must equal the saved sigaction",
-        "signals used: SIGUSR1, SIGUSR2, SIGRTMIN+1; a raise is skipped while the current disposition is SIG_DFL (it would end the process)",
+        "signals used: SIGUSR1, SIGUSR2, SIGRTMIN+1; a signal is not sent while the current disposition is SIG_DFL or has SA_RESETHAND "
+        "(logged as noraise; accepted only when the model says nobody is subscribed and that is the pre-existing disposition)",
+        "concurrent subscription calls of two loops (race steps): the expected state is order-independent; hitting a faulty window "
+        "between two critical sections is schedule-dependent (swept start offsets, a few hundred rounds per run)",
         "callbacks that change subscriptions: an event of the set being served that an earlier callback of the same dispatch "
         "unsubscribed may or may not be called (the statement does not say); an event enabled by a callback is served from the next "
         "number on; an event is never destroyed while it may be in the set being served (the code has a FIXME there)",
@@ -514,7 +517,7 @@ def run(ctx):
         "numbers already queued when a callback closes the loop's pipe is not specified and not generated",
     ]
     ctx.uncovered = [
-        "subscription changes made concurrently with a delivery from another thread (outside the statement's quantifier); destroying "
+        "subscription changes made concurrently with a DELIVERY from another thread (outside the statement's quantifier); destroying "
         "an event from a callback of the delivery that is serving it; numbers pending in a pipe that a callback closes",
         "more than 8 loops / 3 signals on the real code; kernel merging of pending standard signals (excluded by the statement)",
         "sa_restorer and SA_RESTORER are compared only as part of sa_flags as returned by sigaction()",
